@@ -48,8 +48,9 @@ def constants(ctx, exe):
         K = json.loads(out.strip().splitlines()[-1])
     except Exception:
         raise Infra("cannot extract layout constants from the build: rc=%s %s" % (rc, out[-500:]))
-    if not (1 <= K["guard"] <= 3) or len(K["gb"]) != K["guard"] or K["align"] not in (4, 8):
-        raise Infra("layout constants outside what LeakBlocks models (1..3 guard bytes, 4/8-byte pointers): %s" % K)
+    if not (0 <= K["guard"] <= 3) or len(K["gb"]) != K["guard"] or K["align"] not in (4, 8):
+        raise Infra("layout constants outside what LeakBlocks models (0..3 guard bytes, 4/8-byte pointers): %s" % K)
+    K["sepall"] = "TRUE" if K["guard"] == 0 else "FALSE"
     code = 0
     for b in K["gb"]:
         code = code * 256 + b
@@ -64,6 +65,7 @@ CONSTANTS
   Guard = %(guard)d
   Align = %(align)d
   NodeSize = %(node)d
+  SepAll = %(sepall)s
   GBCode = %(gbcode)d
 """
 MENU = """  SmallSizes = {%(small)s}
